@@ -215,10 +215,31 @@ def units(tier, seed):
     out.append(("sqrt-generated", {"examples": 150 if q else 3000}))
     out.append(("inverse-large", {"examples": 3000 if q else 60000}))
     out.append(("jacobi-large", {"examples": 1500 if q else 30000}))
+    out.append(("interleaved", {"stride": 1, "max": 5000 if q else 60000}))
     return out
 
 
+def _interleaved_jobs():
+    # two primes = 1 mod 8 (polynomial branch of the square root) with the same parameter-search depth
+    # class, different residues; plus inverse / jacobi on unrelated arguments
+    return {
+        "a": lambda: [NT.square_root_mod_prime(2, 257), NT.square_root_mod_prime(64 * 64 % 193, 193), NT.inverse_mod(-7, 257),
+                      NT.jacobi(5 << 70, 1009 * 1013)],
+        "b": lambda: [NT.square_root_mod_prime(3 * 3, 313), NT.square_root_mod_prime(11, 257), NT.inverse_mod(90001, 193),
+                      NT.jacobi(-3, 257)],
+    }
+
+
 def run_unit(ctx, name, **kw):
+    if name == "interleaved":
+        from .purity import interleaved_pure
+        jobs = _interleaved_jobs()
+        for k, f in jobs.items():
+            for r, (a, p) in zip(f()[:2], (((2, 257), (64 * 64 % 193, 193)) if k == "a" else ((9, 313), (11, 257)))):
+                if r * r % p != a % p:
+                    raise RuntimeError("sequential square root wrong: harness job invalid")
+        interleaved_pure(ctx, "numbertheory", [NT], jobs, kw["stride"], max_schedules=kw["max"])
+        return
     if name == "inverse-small":
         for m in range(2, kw["hi"] + 1):
             if m % kw["nshards"] != kw["shard"]:
@@ -362,6 +383,10 @@ def run_unit(ctx, name, **kw):
 
 
 def replay(ctx, case):
+    if case.get("kind") == "interleaved":
+        from .purity import interleaved_pure
+        interleaved_pure(ctx, "numbertheory", [NT], _interleaved_jobs(), 1, max_schedules=5000)
+        return
     if case["fn"] == "inverse":
         check_inverse(ctx, case["a"], case["m"])
     elif case["fn"] == "sqrt":
